@@ -1,6 +1,7 @@
 --------------------------------- MODULE NdArray ---------------------------------
 (* C20: an array object (any ndarray_t kind, the legacy classes) and a copy of it *)
-(* as a state machine over resize / write / copy / assign.  A kind is described   *)
+(* as a state machine over resize / write / copy / assign / cast.  A kind is      *)
+(* described                                                                      *)
 (* by what it can hold: dimension rule, element-count rule, constant shape and    *)
 (* per-axis clipped bounds.  Layer R: a refused resize returns false and changes  *)
 (* nothing; an accepted one makes shape, size and strides consistent; a write     *)
@@ -11,8 +12,9 @@ CONSTANTS KindDesc,    \* [dim |-> <<"any"|"fixed"|"bounded", n>>, size |-> <<"a
           Shapes,      \* candidate shapes for resize
           MaxHist
 
-VARIABLES obj, cpy, hist, ret
-vars == <<obj, cpy, hist, ret>>
+VARIABLES obj, cpy, hist, ret,
+          obs          \* value observed by the last action: <<>> or the array a cast produced ([shape, elems])
+vars == <<obj, cpy, hist, ret, obs>>
 Dead == [live |-> FALSE, shape |-> <<>>, elems |-> <<>>]
 
 Accepts(s) ==
@@ -30,27 +32,42 @@ Accepts(s) ==
 Fresh(s, step) == [p \in 1..Prod(s) |-> 100 * step + p - 1]
 
 Init == /\ obj = [live |-> TRUE, shape |-> KindDesc.init, elems |-> Fresh(KindDesc.init, 0)]
-        /\ cpy = Dead /\ hist = <<>> /\ ret = TRUE
+        /\ cpy = Dead /\ hist = <<>> /\ ret = TRUE /\ obs = <<>>
 Step == Len(hist) + 1
 Resize(s) == /\ hist' = Append(hist, [op |-> "resize", shape |-> s])
              /\ IF Accepts(s) THEN obj' = [obj EXCEPT !.shape = s, !.elems = Fresh(s, Step)] /\ ret' = TRUE
                 ELSE obj' = obj /\ ret' = FALSE
-             /\ UNCHANGED cpy
+             /\ UNCHANGED cpy /\ obs' = <<>>
 Write(k) == /\ k < Prod(obj.shape)
             /\ obj' = [obj EXCEPT !.elems[k + 1] = 5000 + Step]
-            /\ hist' = Append(hist, [op |-> "write", k |-> k, v |-> 5000 + Step]) /\ ret' = TRUE /\ UNCHANGED cpy
-CopyC == /\ ~cpy.live /\ cpy' = obj /\ hist' = Append(hist, [op |-> "copy"]) /\ ret' = TRUE /\ UNCHANGED obj
-Assign == /\ cpy.live /\ cpy' = obj /\ hist' = Append(hist, [op |-> "assign"]) /\ ret' = TRUE /\ UNCHANGED obj
-AssignBack == /\ cpy.live /\ obj' = cpy /\ hist' = Append(hist, [op |-> "assign_back"]) /\ ret' = TRUE /\ UNCHANGED cpy
+            /\ hist' = Append(hist, [op |-> "write", k |-> k, v |-> 5000 + Step]) /\ ret' = TRUE /\ UNCHANGED cpy /\ obs' = <<>>
+CopyC == /\ ~cpy.live /\ cpy' = obj /\ hist' = Append(hist, [op |-> "copy"]) /\ ret' = TRUE /\ UNCHANGED obj /\ obs' = <<>>
+Assign == /\ cpy.live /\ cpy' = obj /\ hist' = Append(hist, [op |-> "assign"]) /\ ret' = TRUE /\ UNCHANGED obj /\ obs' = <<>>
+AssignBack == /\ cpy.live /\ obj' = cpy /\ hist' = Append(hist, [op |-> "assign_back"]) /\ ret' = TRUE /\ UNCHANGED cpy /\ obs' = <<>>
 WriteCopy(k) == /\ cpy.live /\ k < Prod(cpy.shape)
                 /\ cpy' = [cpy EXCEPT !.elems[k + 1] = 7000 + Step]
-                /\ hist' = Append(hist, [op |-> "write_copy", k |-> k, v |-> 7000 + Step]) /\ ret' = TRUE /\ UNCHANGED obj
-DropCopy == /\ cpy.live /\ cpy' = Dead /\ hist' = Append(hist, [op |-> "drop_copy"]) /\ ret' = TRUE /\ UNCHANGED obj
+                /\ hist' = Append(hist, [op |-> "write_copy", k |-> k, v |-> 7000 + Step]) /\ ret' = TRUE /\ UNCHANGED obj /\ obs' = <<>>
+DropCopy == /\ cpy.live /\ cpy' = Dead /\ hist' = Append(hist, [op |-> "drop_copy"]) /\ ret' = TRUE /\ UNCHANGED obj /\ obs' = <<>>
+\* casts build a new array and leave the object alone: same shape, every value converted to the target element type
+DTypes == {"f64", "f32", "i8", "u8", "i16"}
+Conv(v, t) == CASE t = "i8" -> ((v + 128) % 256) - 128
+                [] t = "u8" -> v % 256
+                [] t = "i16" -> ((v + 32768) % 65536) - 32768
+                [] OTHER -> v                                    \* f32 / f64 hold every value of the scope exactly
+CastDtype(t) == /\ hist' = Append(hist, [op |-> "cast_dtype", t |-> t]) /\ ret' = TRUE
+                /\ obs' = [shape |-> obj.shape, elems |-> [p \in 1..Len(obj.elems) |-> Conv(obj.elems[p], t)]]
+                /\ UNCHANGED <<obj, cpy>>
+CastKinds == {"dynamic", "nd_dyn"}      \* targets every source kind can be cast to (the ndarray kind tags need a compile-time shape or dimension: C09 matrix)
+CastKind(k) == /\ hist' = Append(hist, [op |-> "cast_kind", k |-> k]) /\ ret' = TRUE
+               /\ obs' = [shape |-> obj.shape, elems |-> obj.elems]
+               /\ UNCHANGED <<obj, cpy>>
 Next == /\ Len(hist) < MaxHist
         /\ \/ \E s \in Shapes : Resize(s)
            \/ \E k \in {0, 1, Prod(obj.shape) - 1} : Write(k)
            \/ CopyC \/ Assign \/ AssignBack \/ DropCopy
            \/ \E k \in {0, Prod(cpy.shape) - 1} : WriteCopy(k)
+           \/ \E t \in DTypes : CastDtype(t)
+           \/ \E k \in CastKinds : CastKind(k)
 Spec == Init /\ [][Next]_vars
 View == <<obj.shape, cpy.live, cpy.shape, obj.elems = cpy.elems>>
 
@@ -58,6 +75,7 @@ View == <<obj.shape, cpy.live, cpy.shape, obj.elems = cpy.elems>>
 Consistent(o) == o.live => Len(o.elems) = Prod(o.shape) /\ Accepts(o.shape)
 Inv == Consistent(obj) /\ Consistent(cpy)
 RefusedChangesNothing == [][(hist' # hist /\ ~ret') => obj' = obj /\ cpy' = cpy]_vars
+CastChangesNothing == [][(hist' # hist /\ hist'[Len(hist')].op \in {"cast_dtype", "cast_kind"}) => (obj' = obj /\ cpy' = cpy /\ obs'.shape = obj.shape /\ Len(obs'.elems) = Prod(obj.shape))]_vars
 WriteTouchesOne == [][(hist' # hist /\ hist'[Len(hist')].op = "write") =>
                         Cardinality({p \in 1..Len(obj.elems) : obj'.elems[p] # obj.elems[p]}) <= 1 /\ cpy' = cpy]_vars
 =================================================================================
